@@ -22,7 +22,16 @@ Streams
              do not read), trajectories without any measured size, integer / float32 `size` and
              positions, object / int32 / float / categorical / string labels, negative and
              non-contiguous frame numbers, extra columns whose names clash with index level names,
-             tables carrying `attrs`; every index layout.  Direct oracle from the statement in
+             tables carrying `attrs`; tables that CARRY columns the filters must not read: columns
+             written by other stages (cluster, cluster_size, proximity, ep, size_x, size_y, raw_mass,
+             signal, ecc, dx, dr, direction), columns whose names contain / extend 'size',
+             'particle', 'frame' (size_std, sizes, particle_old, _old_particle, frame_orig, ...)
+             with values that look like sizes / labels / frame numbers, columns of non-numeric
+             dtype (str, bool, categorical, datetime, timedelta, mixed object), the columns in any
+             order; tables that went through a consumer stage which returns a table (the real
+             tp.cluster; tp.proximity / tp.relate_frames merged back row by row) before the
+             filter; every index layout.  Direct oracle from the statement, computed from the
+             `size` / `particle` / `frame` columns ALONE, in
              exact arithmetic (for NaN sizes BOTH readings of "mean size" are accepted, see
              ASSUMPTIONS), values and dtypes of the returned rows unchanged, the caller's table
              (values, index, columns, dtypes, attrs) unchanged, and the same call on the same data
@@ -35,6 +44,11 @@ Streams
              statement's direct oracle (filters) and (ii) the same stage on the same data in a
              freshly built plain default-indexed DataFrame (partitions for link / link_partial);
              after every step every live table of the caller must be unmodified (attrs included).
+             The tables carry the same extra-column classes as in filterx, and the consumer stages
+             that RETURN a table (cluster; proximity / relate_frames merged back by the caller) are
+             registers too: their tables flow through producers into the filters (family
+             `carried`), where the direct oracle (from `size` / `particle` / `frame` alone, every
+             other column unchanged) applies.
 """
 import itertools
 import json
@@ -57,10 +71,15 @@ RULE = ("table stream: 1 case = 12 stages x 10 layout classes x 5 representative
         "<=3) started from every initial layout, all 12 stages applied after every prefix.  "
         "filterx stream: the filter tables with NaN/inf sizes and masses, unmeasured trajectories, "
         "int/float32 sizes and positions, object/int32/float/categorical/string labels, negative and "
-        "non-contiguous frames, clashing extra columns, attrs; cuts on the 1/16 grid next to the "
-        "trajectory means; session stream: 3-10 step programs over registers in 4 families "
+        "non-contiguous frames, clashing extra columns, attrs, carried columns (60% of the tables: "
+        "1-4 columns named like other stages' outputs or containing 'size'/'particle'/'frame', "
+        "size-/label-/frame-like or non-numeric values), permuted column order (25%), 30% of the "
+        "tables passed through the real cluster / merged-back proximity / relate_frames first; "
+        "cuts on the 1/16 grid next to the "
+        "trajectory means; session stream: 3-10 step programs over registers in 5 families "
         "(revisit: A(T); U=B(T); A(U) for all 12x5 (A,B); twice; feedback; random DAG biased to "
-        "re-used sources).  "
+        "re-used sources; carried: T -> [producer] -> cluster / proximity_merged / relate_merged "
+        "-> producers -> filters), results of cluster and of the merges are registers.  "
         "Non-trivial = filter case that both keeps and drops a trajectory / pipeline case with >=2 "
         "accepted producer steps and >=8 consumer comparisons / session with >=3 executed steps and "
         ">=1 table object used more than once; distinct = distinct canonical input.")
@@ -99,6 +118,15 @@ ASSUMPTIONS = [
     "session: a rejection / other numbers on the INITIAL table (not returned by a stage) counts only "
     "for the filters (exactness is claimed for all tables); for the other stages it is a counter, as "
     "in the pipeline stream",
+    "a table that comes out of cluster or of a caller-side merge of proximity / relate_frames is not "
+    "'returned by a trajectory-producing stage' in the statement's list: like the initial table it is "
+    "in scope for the filters (exact on ALL tables, judged by the direct oracle from size / particle "
+    "/ frame alone, all other columns unchanged); for the other stages a rejection / other numbers on "
+    "it is a counter; once a producer has returned a table derived from it the full statement applies",
+    "carried columns are never named 'z' (guess_pos_columns reads it as a coordinate) nor 'x_b'/'y_b' "
+    "(relate_frames' join suffix); the merged-back proximity / relate_frames columns are attached by "
+    "the harness (row order of tp.proximity's result follows the input rows; relate_frames' "
+    "displacements are looked up by label, skipped when a label occurs twice in a frame)",
     "categorical and string labels only in filterx: compute_drift / subtract_drift (Series.diff on the "
     "labels) and link_partial (writes integer ids into the label column) reject them on the plain "
     "default-indexed table as well (degenerate by the rule above); integer positions only in "
@@ -376,10 +404,10 @@ def canon_partition(df):
     unique (set iteration order of Point objects; differs from run to run on the same table):
     compare the PARTITION of the rows into trajectories - labels renamed by first appearance in
     the canonical row order (frame, x, y, remaining columns)."""
-    others = [c for c in df.columns if c != "particle"]
-    key = [c for c in ["frame", "x", "y"] if c in others] + \
-          sorted(str(c) for c in others if c not in ("frame", "x", "y"))
-    vals = [tuple(_num(df[c].values[i]) for c in key) for i in range(len(df))]
+    d = {str(c): df[c].values for c in df.columns if c != "particle"}   # labels may be non-strings
+    key = [c for c in ["frame", "x", "y"] if c in d] + \
+          sorted(c for c in d if c not in ("frame", "x", "y"))
+    vals = [tuple(_num(d[c][i]) for c in key) for i in range(len(df))]
     skey = lambda r: tuple((0, 0.0, "") if v is None else
                            ((1, v, "") if isinstance(v, float) else (2, 0.0, v)) for v in r)
     order = sorted(range(len(df)), key=lambda i: skey(vals[i]))
@@ -739,7 +767,7 @@ def gen_cases(ctx):
             yield gen_pipeline(ctx.rng("pipeline", i), 6 if ctx.thorough else 4)
         for i in range(ctx.n(320, 3600)):
             yield gen_filterx(ctx.rng("filterx", i), i)
-        for i in range(ctx.n(320, 3600)):
+        for i in range(ctx.n(400, 4500)):
             yield gen_session(ctx.rng("session", i), i, ctx.thorough)
     finally:
         try:
@@ -1094,6 +1122,94 @@ def run_pipeline_case(ctx, inp):
 
 EXTRA_NAMES = ["frame_index", "foo", "k", "a", "index", "level_0", "particle_index"]
 
+# Columns a trajectory table CARRIES besides the ones a stage reads.  The statement quantifies over
+# all trajectory tables: the filters must be exact, and every stage give the same numbers, whatever
+# else the table carries.  (i) columns written by other trackpy stages (locate / batch: ep, raw_mass,
+# signal, ecc, size_x, size_y; cluster: cluster, cluster_size; proximity merged back: proximity;
+# relate_frames merged back: dx, dy, dr, direction), (ii) user columns whose names CONTAIN or EXTEND
+# the names of the columns the filters read ('size', 'particle', 'frame'), (iii) any of them with a
+# non-numeric dtype.  No column is named 'z' (guess_pos_columns would read it as a third coordinate)
+# and none 'x_b' / 'y_b' (relate_frames' join suffix).
+CARRY_STAGE_NAMES = ["cluster", "cluster_size", "proximity", "ep", "size_x", "size_y", "raw_mass",
+                     "signal", "ecc", "dx", "dr", "direction"]
+CARRY_CLASH_NAMES = ["size_std", "sizes", "msize", "Size", "size_", "cluster_size",
+                     "particle_old", "_old_particle", "particles", "particle_", "Particle",
+                     "frame_orig", "old_frame", "frames", "frame_", "Frame",
+                     0]                                          # a column label that is not a string
+CARRY_NUMERIC = ["size_like", "int_small", "float", "nan_float", "int32", "label_like",
+                 "label_const", "frame_like"]
+CARRY_NONNUMERIC = ["str", "bool", "category", "datetime", "object_mixed", "timedelta"]
+
+
+def gen_carry(rng, session):
+    """[[name, kind, seed], ...]: 1-4 carried columns; names containing 'size' / 'particle' /
+    'frame' mostly get values that LOOK like sizes / labels / frame numbers but are other numbers
+    (reading them instead of, or together with, the real column changes the answer)"""
+    out = []
+    names = rng.sample(CARRY_STAGE_NAMES, rng.randint(0, 2)) + \
+        rng.sample(CARRY_CLASH_NAMES, rng.randint(0, 2))
+    if not names:
+        names = [rng.choice(CARRY_STAGE_NAMES + CARRY_CLASH_NAMES)]
+    for name in dict.fromkeys(names):
+        low = str(name).lower()
+        r = rng.random()
+        if r < 0.2:
+            kind = rng.choice(CARRY_NONNUMERIC)
+        elif r < 0.75 and "size" in low:
+            kind = rng.choice(["size_like", "size_like", "int_small", "int_small", "nan_float"])
+        elif r < 0.75 and "particle" in low:
+            kind = rng.choice(["label_like", "label_like", "label_const"])
+        elif r < 0.75 and "frame" in low:
+            kind = "frame_like"
+        else:
+            kind = rng.choice(CARRY_NUMERIC)
+        out.append([name, kind, rng.randrange(1 << 30)])
+    return out
+
+
+def carry_values(kind, seed, frame, particle_codes):
+    """values of one carried column (deterministic in (kind, seed) and the rows)"""
+    import random
+    P = pd()
+    rng = random.Random("C20-carry-%d" % seed)
+    n = len(frame)
+    if kind == "size_like":                                      # dyadic, other scale than `size`
+        return np.array([rng.randint(2, 160) / 4.0 for _ in range(n)])
+    if kind == "int_small":                                      # as cluster_size
+        return np.array([rng.choice([1, 1, 1, 2, 2, 3, 5, 12]) for _ in range(n)], dtype=np.int64)
+    if kind == "float":
+        return np.array([rng.randint(-400, 400) / 8.0 for _ in range(n)])
+    if kind == "nan_float":
+        return np.array([np.nan if rng.random() < 0.4 else rng.randint(0, 80) / 4.0
+                         for _ in range(n)])
+    if kind == "int32":
+        return np.array([rng.randint(-5, 50) for _ in range(n)], dtype=np.int32)
+    if kind == "label_like":                                     # ANOTHER partition of the rows
+        k = rng.randint(2, 4)
+        return np.array([(int(c) + int(f)) % k for c, f in zip(particle_codes, frame)],
+                        dtype=np.int64)
+    if kind == "label_const":
+        return np.full(n, rng.choice([0, 7]), dtype=np.int64)
+    if kind == "frame_like":                                     # other frame numbers
+        a, b = rng.choice([(2, 1), (-1, 50), (1, 3), (0, 4)])
+        return np.array([a * int(f) + b for f in frame], dtype=np.int64)
+    if kind == "str":
+        return P.Series(["s%d" % rng.randint(0, 5) for _ in range(n)], dtype=object).values
+    if kind == "bool":
+        return np.array([rng.random() < 0.5 for _ in range(n)], dtype=bool)
+    if kind == "category":
+        return P.Categorical([rng.choice(["a", "b", "c"]) for _ in range(n)],
+                             categories=["a", "b", "c", "unused"])
+    if kind == "datetime":
+        return np.array(["2020-01-%02d" % rng.randint(1, 28) for _ in range(n)],
+                        dtype="datetime64[ns]")
+    if kind == "timedelta":
+        return np.array([rng.randint(0, 1000) for _ in range(n)], dtype="timedelta64[ms]")
+    if kind == "object_mixed":
+        return P.Series([rng.choice([None, "u", 3, 2.5, (1, 2)]) for _ in range(n)],
+                        dtype=object).values
+    raise ValueError(kind)
+
 
 def gen_mods(rng, rows, session):
     """data classes on top of gen_rows (as index lists / names, so that the input stays JSON):
@@ -1152,6 +1268,10 @@ def gen_mods(rng, rows, session):
         m["extra"] = rng.sample(EXTRA_NAMES, rng.randint(1, 2))
     if rng.random() < 0.2:
         m["attrs"] = {"source": "movie-%d.tif" % rng.randint(0, 9), "mpp": 0.5}
+    if rng.random() < 0.6:
+        m["carry"] = gen_carry(rng, session)
+    if rng.random() < 0.25:
+        m["col_order"] = rng.randrange(1 << 30)                  # the columns in another order
     return m
 
 
@@ -1214,7 +1334,17 @@ def build_table(rows, mods, layout, variant):
         df["particle"] = df["particle"].astype(pk)
     for j, name in enumerate(m.get("extra", [])):
         df[name] = 0.5 * np.arange(n) + j
+    if m.get("carry"):
+        codes = P.factorize(df["particle"])[0]
+        for name, kind, seed in m["carry"]:
+            if name not in df.columns:
+                df[name] = carry_values(kind, seed, df["frame"].tolist(), codes)
     df["rid"] = np.arange(n)
+    if m.get("col_order") is not None:
+        import random
+        cols = list(df.columns)
+        random.Random("C20-cols-%d" % m["col_order"]).shuffle(cols)
+        df = df[cols].copy()
     t = apply_layout(df, layout, variant)
     if m.get("attrs"):
         t.attrs.update(m["attrs"])
@@ -1249,6 +1379,20 @@ def mods_stats(res, t, mods):
             res.stat("extra_column_clashes_with_index_level")
     if m.get("attrs"):
         res.stat("tables_with_attrs")
+    if m.get("col_order") is not None:
+        res.stat("permuted_column_order_tables")
+    if m.get("carry"):
+        res.stat("carried_column_tables")
+        for name, kind, _ in m["carry"]:
+            res.stat("carried_kind_%s" % kind)
+            low = str(name).lower()
+            for key in ("size", "particle", "frame"):
+                if key in low:
+                    res.stat("carried_name_contains_%s" % key)
+            if name in CARRY_STAGE_NAMES:
+                res.stat("carried_stage_column_%s" % name)
+        if any(k in CARRY_NONNUMERIC for _, k, _ in m["carry"]):
+            res.stat("carried_nonnumeric_tables")
 
 
 def fresh_table(t):
@@ -1263,13 +1407,63 @@ def fresh_table(t):
     for j, c in enumerate(cols):
         col = t.iloc[:, j]
         if isinstance(col.dtype, np.dtype):
-            data[c] = np.array(col.to_numpy(), copy=True)
+            # dtype given explicitly: pandas 3 infers `str` for an object array that happens to
+            # hold only strings (an object column of which a filter kept the string rows)
+            data[c] = P.Series(np.array(col.to_numpy(), copy=True), dtype=col.dtype)
         else:
             data[c] = col.array.copy()
     f = P.DataFrame(data, columns=cols)
     if f.attrs or not isinstance(f.index, P.RangeIndex):
         raise RuntimeError("fresh table is not plain")
+    if [str(d) for d in f.dtypes] != [str(d) for d in t.dtypes]:
+        raise RuntimeError("fresh table changed dtypes: %s -> %s" % (list(t.dtypes), list(f.dtypes)))
     return f
+
+
+# consumer stages that RETURN a table with one row per input row: the caller carries the result on
+# in the trajectory table (tp.cluster returns that table itself: "a copy of f with added 'cluster'
+# and 'cluster_size' columns"; proximity / relate_frames results are merged back by the caller, as
+# in the docstring example of tp.proximity).  Session ops -> the trackpy stage that is run
+TABLE_CONSUMERS = {"cluster": "cluster", "proximity_merged": "proximity",
+                   "relate_merged": "relate_frames"}
+
+
+def merge_back(op, src, out):
+    """the trajectory table the caller continues with after the table-returning consumer `op`
+    returned `out` for the table `src` (None: cannot be merged row by row)"""
+    if op == "cluster":
+        return out if len(out) == len(src) else None
+    if len(src) == 0:
+        return None
+    m = src.copy()
+    if op == "proximity_merged":
+        if len(out) != len(src):
+            return None
+        m["proximity"] = out["proximity"].values                # row order follows the input rows
+        return m
+    if op == "relate_merged":
+        if not out.index.is_unique or len(out) == 0:
+            return None                                          # a label twice in one frame
+        lab = src["particle"]
+        try:
+            for c in ("dx", "dy", "dr", "direction"):
+                m[c] = out[c].reindex(lab.values).values        # NaN for trajectories not in frame1
+        except Exception:
+            return None
+        return m
+    raise ValueError(op)
+
+
+def via_table(t, via, separation):
+    """filterx: the table after it went through a table-returning consumer (None: the consumer
+    rejects this data / cannot be merged)"""
+    par = dict(default_params())
+    par["separation"] = separation
+    try:
+        out = run_stage(TABLE_CONSUMERS[via], t, par, copy=True)
+        return merge_back(via, t, out)
+    except Exception:
+        return None
 
 
 def snapshot(t):
@@ -1459,10 +1653,14 @@ def judge_filter(which, S, out, thr=None, cut=None):
 
 def gen_filterx(rng, i):
     rows = gen_rows(rng, npart=rng.randint(1, 7), nframes=rng.randint(1, 12),
-                    dup=rng.random() < 0.15)
+                    dup=rng.random() < 0.15, close=rng.random() < 0.4)
     inp = dict(stream="filterx", rows=rows, layout=rng.choice(LAYOUTS), variant=rng.randint(0, 1),
                mods=gen_mods(rng, rows, session=False))
     add_clash(rng, inp["mods"], inp["layout"], inp["variant"])
+    if rng.random() < 0.3:
+        # the table went through a consumer stage that returns a table before it reaches the filter
+        inp["via"] = [rng.choice(["cluster", "cluster", "proximity_merged", "relate_merged"]),
+                      rng.choice([1.0, 2.0, 5.0, 9.0, 14.0])]
     counts = {}
     for r in rows:
         counts[r["particle"]] = counts.get(r["particle"], 0) + 1
@@ -1519,6 +1717,15 @@ def run_filterx_case(ctx, inp):
     t = build_table(inp["rows"], inp.get("mods"), inp["layout"], inp.get("variant", 0))
     mods_stats(res, t, inp.get("mods"))
     res.stat("filterx_%s" % which)
+    if inp.get("via"):
+        tv = via_table(t, inp["via"][0], inp["via"][1])
+        if tv is None:
+            res.stat("filterx_via_not_applicable")               # e.g. NaN positions, one frame
+        else:
+            t = tv
+            res.stat("filterx_via_%s" % inp["via"][0])
+            if "cluster_size" in t.columns and len(set(t["cluster_size"].tolist())) > 1:
+                res.stat("filterx_cluster_size_varies")
     snap = snapshot(t)
     S = snap["values"]
     thr = cut = None
@@ -1620,6 +1827,9 @@ def step_par(rng, op):
     return {}
 
 
+TABLE_OPS = PRODUCERS + list(TABLE_CONSUMERS)                   # session ops whose result is a register
+
+
 def gen_session(rng, i, thorough):
     """a program over registers: register 0 is the caller's table, register j+1 the table
     returned by step j (producers only).  Families (in rotation):
@@ -1631,8 +1841,8 @@ def gen_session(rng, i, thorough):
     rows = gen_rows(rng, npart=rng.randint(2, 6), nframes=rng.randint(4, 12),
                     close=rng.random() < 0.3, dup=rng.random() < 0.1, jitter=True)
     mods = gen_mods(rng, rows, session=True)
-    fam = ["revisit", "twice", "feedback", "random"][i % 4]
-    k = i // 4
+    fam = ["revisit", "twice", "feedback", "random", "carried"][i % 5]
+    k = i // 5
     steps = []
 
     def add(op, src, par=None):
@@ -1668,13 +1878,28 @@ def gen_session(rng, i, thorough):
         add(rng.choice(["filter_stubs", "filter_clusters"]), w)
         add(rng.choice(["link", "link_partial"]), f)
         add("filter_stubs", len(steps))
+    elif fam == "carried":
+        # a consumer stage that RETURNS a table (cluster; proximity / relate_frames merged back by
+        # the caller) in the middle of the pipeline: its columns are carried through producers into
+        # the filters, which must still be exact in terms of `size` / `particle` / `frame` alone
+        src = 0
+        if rng.random() < 0.5:
+            src = add(rng.choice(["link", "subtract_drift", "filter_stubs", "link_partial"]), 0)
+        c = add(rng.choice(["cluster", "cluster", "cluster", "proximity_merged", "relate_merged"]), src)
+        add("filter_clusters", c)
+        cur = c
+        for _ in range(rng.randint(0, 2)):
+            cur = add(rng.choice(PRODUCERS + ["cluster"]), cur)
+        add("filter_clusters", cur)
+        add("filter_stubs", cur)
+        add(rng.choice(STAGES), cur)
     nmax = (10 if thorough else 7) if fam == "random" else len(steps) + rng.randint(0, 2)
     used = set(s["src"] for s in steps)
     while len(steps) < nmax:
-        regs = [0] + [j + 1 for j, s in enumerate(steps) if s["op"] in PRODUCERS]
+        regs = [0] + [j + 1 for j, s in enumerate(steps) if s["op"] in TABLE_OPS]
         w = [(3 if r in used else 1) + (2 if r == regs[-1] else 0) for r in regs]
         src = rng.choices(regs, weights=w)[0]
-        op = rng.choice(PRODUCERS * 3 + ["filter_stubs"] * 3 + CONSUMERS)
+        op = rng.choice(PRODUCERS * 3 + ["filter_stubs"] * 3 + CONSUMERS + list(TABLE_CONSUMERS))
         add(op, src)
         used.add(src)
     inp = dict(stream="session", family=fam, rows=rows, mods=mods,
@@ -1715,6 +1940,7 @@ def run_session_case(ctx, inp):
     res.stat("session_family_%s" % inp.get("family", "corpus"))
     regs = {0: t0}
     snaps = {0: snapshot(t0)}
+    origin = {0: None}                                            # register -> op that returned it
     uses = {}
     seen_by = {}                                                  # register -> stages that saw it
     ran = compared = oracle_calls = 0
@@ -1731,12 +1957,17 @@ def run_session_case(ctx, inp):
                       impl=dict(step=j + 1, **extra), model=None, signature=sig)
 
     for j, st in enumerate(steps):
-        op, src_id = st["op"], st["src"]
+        opname, src_id = st["op"], st["src"]
+        op = TABLE_CONSUMERS.get(opname, opname)                  # the trackpy stage that is run
         src = regs.get(src_id)
         if src is None or len(src) == 0:
             res.stat("session_step_skipped_no_source")
             continue
-        produced = src_id != 0
+        # the statement's second sentence is about tables RETURNED BY A PRODUCER; a table that comes
+        # out of cluster / a merge (or the initial one) is in scope for the filters only
+        produced = origin.get(src_id) in PRODUCERS
+        if origin.get(src_id) in TABLE_CONSUMERS:
+            res.stat("session_steps_on_%s_table" % origin[src_id])
         par = dict(default_params())
         par.update(st["par"])
         S = snaps[src_id]["values"]
@@ -1763,7 +1994,7 @@ def run_session_case(ctx, inp):
             r_obj = ("err", type(e).__name__, str(e)[:160])
         ran += 1
         res.stat("session_steps")
-        res.stat("session_step_%s" % op)
+        res.stat("session_step_%s" % opname)
         # (o) no stage may modify a table of the caller (any live register), attrs included
         for rid_, sn in snaps.items():
             mod = modified_aspect(sn, regs[rid_])
@@ -1779,6 +2010,7 @@ def run_session_case(ctx, inp):
             if r_obj[0] == "ok" and op in PRODUCERS:
                 regs[j + 1] = r_obj[1]
                 snaps[j + 1] = snapshot(r_obj[1])
+                origin[j + 1] = op
             continue
         if r_obj[0] == "err":
             res.stat("session_rejects")
@@ -1801,6 +2033,11 @@ def run_session_case(ctx, inp):
                     res.stat("session_direct_oracle_checks")
                     if exp.get("nan_groups"):
                         res.stat("session_filter_clusters_on_nan_sizes")
+                    other = [c for c in S.columns if c != "size" and "size" in str(c).lower()]
+                    if which == "clusters" and other:
+                        res.stat("session_filter_clusters_with_other_size_named_column")
+                        if "cluster_size" in other and len(set(S["cluster_size"].tolist())) > 1:
+                            res.stat("session_filter_clusters_cluster_size_varies")
                     if bad:
                         viol(j, bad.split(":")[0], "%s on r%d: %s" % (op, src_id, bad), op)
         # (ii) the same stage on the same data in a freshly built plain table
@@ -1825,7 +2062,20 @@ def run_session_case(ctx, inp):
         if op in PRODUCERS:
             regs[j + 1] = out
             snaps[j + 1] = snapshot(out)
+            origin[j + 1] = op
             res.stat("session_layout_%s" % classify(out))
+        elif opname in TABLE_CONSUMERS and same:
+            try:
+                merged = merge_back(opname, src, out)
+            except Exception:
+                merged = None
+            if merged is None or "rid" not in merged.columns:
+                res.stat("session_merge_not_applicable")
+            else:
+                regs[j + 1] = merged
+                snaps[j + 1] = snapshot(merged)
+                origin[j + 1] = opname
+                res.stat("session_table_from_%s" % opname)
     shared = sum(1 for v in uses.values() if v > 1)
     res.stat("session_shared_tables", shared)
     res.nontrivial = ran >= 3 and shared >= 1 and compared >= 3
